@@ -10,3 +10,6 @@ import MicroHttp.Props.Tables
 #print axioms MicroHttp.C01.sched_refines
 #print axioms MicroHttp.Tables.no_shared_state
 #print axioms MicroHttp.Tables.no_interior_mutability
+#print axioms MicroHttp.Tables.conn_fields
+#print axioms MicroHttp.Tables.headers_fields
+#print axioms MicroHttp.Tables.request_fields
